@@ -239,6 +239,13 @@ OPTIONAL_RULES: list[Rule] = [
     *[R(167, f"re.compile('a', re.{f}).flags", {}, setup="import re\n", cls="L") for f in _RE_FLAGS],
     # FURB116: every base prefix builtin on negative and big ints
     R(116, "bin(n)[2:]", {"n": "nat"}), R(116, "oct(n)[2:]", {"n": "int"}), R(116, "hex(n)[2:]", {"n": "int"}), R(116, "hex(n)[3:]", {"n": "nat"}),
+    # FURB146 / FURB155 / FURB141 / FURB144: every function of their tables, on names and on Path objects
+    *[R(146, f"os.path.{f}(p)", {"p": "fs_name"}, setup="import os\nfrom pathlib import Path\n", cls="L", fs=True) for f in ("islink", "isfile", "isdir", "isabs")],
+    *[R(155, f"{f}(p)", {"p": "fs_existing"}, setup="import os\nfrom pathlib import Path\n", cls="L", fs=True)
+      for f in ("os.stat", "os.path.getsize", "os.path.getatime", "os.path.getmtime", "os.path.getctime")],
+    *[R(c, f"{f}(pp)", {"pp": "fs_path_existing"}, setup="import os\nfrom pathlib import Path\n", cls="L", fs=True, annot={"pp": "Path"})
+      for c, f in ((146, "os.path.isfile"), (146, "os.path.islink"), (155, "os.path.getmtime"), (155, "os.path.getatime"), (155, "os.path.getctime"), (141, "os.path.exists"))],
+    R(144, "os.unlink(p)", {"p": "fs_name"}, setup="import os\nfrom pathlib import Path\n", cls="L", fs=True, mode="stmt"),
     # FURB163: every base
     *[R(163, f"math.log(v, {b})", {"v": "posfloat"}, setup="import math\n", cls="L") for b in ("2", "10", "math.e", "2.0", "10.0", "8", "math.pi")],
     # FURB161
